@@ -25,7 +25,14 @@ class _Capture(logging.Handler):
         self.records = []
 
     def emit(self, record):
-        if len(self.records) < 1000:
+        # format like any real handler would (lazy "%s" arguments are only
+        # evaluated here); a failure inside is reported by logging itself and
+        # never reaches the caller
+        try:
+            record.getMessage()
+        except Exception:  # noqa
+            pass
+        if record.levelno >= logging.WARNING and len(self.records) < 1000:
             self.records.append(record)
 
 
@@ -68,6 +75,15 @@ def setup():
         lg.propagate = False
         lg.setLevel(logging.WARNING)
     _ready = True
+
+
+def set_lib_log_level(name):
+    """The application's logging configuration is part of the environment: a
+    shard may run with the library's loggers at DEBUG (hex dumps, pretty
+    printed messages - code that only runs then).  -> previous level name"""
+    level = getattr(logging, name or "WARNING")
+    for n in ("puresnmp", "puresnmp_plugins"):
+        logging.getLogger(n).setLevel(level)
 
 
 # ---------------------------------------------------------------------------
